@@ -6,6 +6,7 @@ From Coq Require Import List ZArith Bool String.
 Import ListNotations.
 Require Import Pyrefact.Ops PyrefactGen.Tables PyrefactGen.TablesC15.
 Require Import Pyrefact.PyValModel Pyrefact.LitValModel Pyrefact.LitValProofs.
+Require Import Pyrefact.BoolRwModel Pyrefact.ConstFoldModel Pyrefact.ConstFoldProofs.
 Open Scope Z_scope.
 
 (* T15.0 the regenerated constants.COMPARISON_OPERATORS maps every operator token to the Python
@@ -17,6 +18,13 @@ Print Assumptions T15_0_operator_table_binop.
 Theorem T15_0_operator_table_cmpop : forall o, table_fn (OC o) = Some (cmpop_fn o).
 Proof. exact table_cmpop. Qed.
 Print Assumptions T15_0_operator_table_cmpop.
+
+(* T15.0c the regenerated constants.PURE_BUILTIN_FUNCTIONS (the only functions literal_value may call
+   at refactoring time) stays inside the trusted list of pure builtins. *)
+Theorem T15_0c_only_pure_builtins_called :
+  forall f, In f PURE_BUILTIN_FUNCTIONS -> In f KNOWN_PURE /\ In f BUILTIN_FUNCTIONS.
+Proof. exact pure_table_ok. Qed.
+Print Assumptions T15_0c_only_pure_builtins_called.
 
 (* T15.1 soundness, full strength: for EVERY expression of the fragment (any depth, any operand
    lists, names, calls with and without keywords, method calls) and every binding of the variables
@@ -44,7 +52,64 @@ Theorem T15_2_operator_fragment_exact : forall env e, frag e = true -> lv e = wr
 Proof. exact frag_exact. Qed.
 Print Assumptions T15_2_operator_fragment_exact.
 
+(* T15.3 never a crash: for every expression, no exception escapes from literal_value (every class the
+   evaluated operators, builtins and methods raise derives from Exception, which the wrapper turns
+   into "unknown"). *)
+Theorem T15_3_never_a_crash : forall e k, lv e <> LCrash k.
+Proof. exact lv_no_crash. Qed.
+Print Assumptions T15_3_never_a_crash.
+
+(* T15.4 the consumers.  One unit of fuel = one executed statement; [exec] gives the opaque events
+   executed and how execution ends (normally / raising k), [rest] is any continuation. *)
+(* remove_dead_ifs on `if` / `while`: the program with the node replaced does exactly what the
+   original does (same events, same outcome), one step shorter *)
+Theorem T15_4a_remove_dead_ifs_stmt : forall env s ss, dead_if s = Some ss ->
+  forall fuel rest, exec env (S fuel) (s :: rest) = exec env fuel (ss ++ rest).
+Proof. exact dead_if_sound. Qed.
+Print Assumptions T15_4a_remove_dead_ifs_stmt.
+
+(* delete_unreachable_code, If / While branch *)
+Theorem T15_4b_delete_unreachable_if : forall env s ss, unreachable_if s = Some ss ->
+  forall fuel rest, exec env (S fuel) (s :: rest) = exec env (S fuel) (ss ++ rest) \/
+                    exec env (S fuel) (s :: rest) = exec env fuel (ss ++ rest).
+Proof. exact unreachable_if_sound. Qed.
+Print Assumptions T15_4b_delete_unreachable_if.
+
+(* remove_dead_ifs on a conditional expression *)
+Theorem T15_4c_fold_ifexp : forall env e e', fold_ifexp e = Some e' -> eval env e = eval env e'.
+Proof. exact fold_ifexp_sound. Qed.
+Print Assumptions T15_4c_fold_ifexp.
+
+(* simplify_boolean_expressions: `not <constant>` and single-operator comparison folding *)
+Theorem T15_4d_fold_comparison : forall env e e', fold_bool_expr e = Some e' -> eval env e = eval env e'.
+Proof. exact fold_bool_expr_sound. Qed.
+Print Assumptions T15_4d_fold_comparison.
+
+(* T15.5 remove_redundant_boolop_values with the mask computed by literal_value: for operand lists
+   of every length whose operands evaluate to Python values ws, the kept operands yield the same
+   VALUE (not only the same truth), and every operand the tool could not evaluate is evaluated
+   exactly when it was before. *)
+Theorem T15_5_redundant_operands_values :
+  forall env isand es ws ids,
+    Forall2 (fun e w => eval env e = Val w) es ws ->
+    List.length ids = List.length ws -> NoDup ids -> es <> [] ->
+    let mask := mask_of es in
+    let ops := combine ids ws in
+    let kept := keep (redundant isand mask) ops in
+    kept <> [] /\
+    fst (bool_val val truthy isand kept) = fst (bool_val val truthy isand ops) /\
+    forall i, nth_error mask i = Some Unknown -> forall id, nth_error ids i = Some id ->
+      (In id (snd (bool_val val truthy isand kept)) <-> In id (snd (bool_val val truthy isand ops))).
+Proof. exact redundant_values_sound. Qed.
+Print Assumptions T15_5_redundant_operands_values.
+
 (* non-trivial inputs meeting the hypotheses *)
+Example ex_dead_if : dead_if (SIf (ECmp (EConst (VInt 1)) [(CLt, EConst (VInt 2))]) [SAtom 1] [SAtom 2]) = Some [SAtom 1].
+Proof. vm_compute. reflexivity. Qed.
+Example ex_while_else_kept : dead_if (SWhile (EConst (VInt 0)) [SAtom 1] [SAtom 2]) = None.
+Proof. vm_compute. reflexivity. Qed.
+Example ex_mask : mask_of [EConst (VInt 0); EName "x"; EBin BAdd (EConst (VInt 1)) (EConst (VInt 1))] = [Falsy; Unknown; Truthy].
+Proof. vm_compute. reflexivity. Qed.
 Example ex_known : lv (EBool true [EConst (VInt 1); EBin BAdd (EConst (VStr [97])) (EConst (VStr [98]))])
                    = LKnown (VStr [97; 98]).
 Proof. vm_compute. reflexivity. Qed.
